@@ -8,7 +8,7 @@ import (
 )
 
 // the history generator of the C03 stream, shared with the binary-level variant
-var genC03 func(r *rand.Rand, n int, emit Emit)
+var genC03 func(r *rand.Rand, n int, emit Emit, withTime bool)
 
 func init() {
 	all := pipeCfgOpts{true, true, true, true, true, true, true, true, true}
@@ -346,26 +346,36 @@ func init() {
 	register(c08)
 
 	// ------------------------------------------------------------ C03 scrape consistency
-	c03 := &Component{Name: "pipe_c03", Exec: execPipe, Rule: base + "C03 stream: lines whose names end in _sum/_count/_bucket, equal the names of two pre-registered collectors (a counter and a gauge family registered in the same registry before the exporter starts), or consist only of tags; tag keys that are reserved (__x, le, quantile), exotic (unicode, dots, digits first) or clash with rule labels; rules giving one name different help strings; all stat types; a scrape after every line. Non-trivial: the history touches at least one name with a companion suffix or a pre-registered name, or a reserved tag key."}
+	c03 := &Component{Name: "pipe_c03", Exec: execPipe, Rule: base + "C03 stream: lines whose names end in _sum/_count/_bucket, equal the names of two pre-registered collectors (a counter and a gauge family registered in the same registry before the exporter starts), or consist only of tags; tag keys that are reserved (__x, le, quantile), exotic (unicode, dots, digits first) or clash with rule labels; rules giving one name different help strings; a rule that gives a name an expiring series next to its never-expiring one, with clock advances and TTL sweeps in between; all stat types; a scrape after every line. Non-trivial: the history touches at least one name with a companion suffix or a pre-registered name, or a reserved tag key."}
 	c03.Gen = func(r *rand.Rand, tier string, emit Emit) {
 		n := 4000
 		if tier == "thorough" {
 			n = 80000
 		}
-		genC03(r, n, emit)
+		genC03(r, n, emit, true)
 	}
-	genC03 = func(r *rand.Rand, n int, emit Emit) {
+	genC03 = func(r *rand.Rand, n int, emit Emit, withTime bool) {
 		pres := []preFam{{"statsd_exporter_events_total", "c", "The total number of StatsD events seen."}, {"go_goroutines", "g", "Number of goroutines that currently exist."}}
 		names := []string{"x", "x_sum", "x_count", "x_bucket", "statsd_exporter_events_total", "go_goroutines", "y", "y_sum", "a.b", "9z"}
 		keys := []string{"__x", "le", "quantile", "tag1", "é", "a.b", "9k", "t", "_", "__"}
-		corpus := [][]string{{"foo:1|c|#__x:1"}, {",a=b:1|c"}, {"[a=b]:1|c"}, {"foo:1|ms|#quantile:0.5"}, {"hist.foo:1|ms|#le:0.5"}, {"x:1|ms", "x_sum:1|ms"}, {"hist.x_bucket:1|h", "hist.x:1|h"}, {"h1:1|c", "h2:1|c|#t:v"}}
+		corpus := [][]string{{"x:1|c", "ttl.x:1|c", "@adv3", "x:3|g"}, {"ttl.y:1|ms", "@adv3", "y_sum:1|c", "y:1|ms"}, {"foo:1|c|#__x:1"}, {",a=b:1|c"}, {"[a=b]:1|c"}, {"foo:1|ms|#quantile:0.5"}, {"hist.foo:1|ms|#le:0.5"}, {"x:1|ms", "x_sum:1|ms"}, {"hist.x_bucket:1|h", "hist.x:1|h"}, {"h1:1|c", "h2:1|c|#t:v"}}
+		// `ttl.<name>` gives <name> a series that expires after 2s next to the never-expiring series of the plain line
 		base := &rawCfg{rules: []rawRule{{match: "hist.*", name: "$1", obs: sp("histogram"), mmt: sp("observer")},
-			{match: "h1", name: "hh", help: "help one"}, {match: "h2", name: "hh", help: "help two"}}}
+			{match: "h1", name: "hh", help: "help one"}, {match: "h2", name: "hh", help: "help two"},
+			{match: "ttl.*", name: "$1", ttl: int64(2 * time.Second), labels: [][2]string{{"exp", "1"}}}}}
 		for _, ls := range corpus {
 			h := &pipeHist{flags: "1111", pres: pres}
 			h.load(base)
 			for _, l := range ls {
-				h.line(l)
+				if l == "@adv3" {
+					if !withTime {
+						continue
+					}
+					h.adv(3 * time.Second)
+					h.sweep()
+				} else {
+					h.line(l)
+				}
 				h.scrape()
 			}
 			h.line("fine:1|c")
@@ -386,9 +396,17 @@ func init() {
 			k := 3 + r.Intn(10)
 			nt := false
 			for j := 0; j < k; j++ {
+				if withTime && r.Intn(9) == 0 { // time passes and the sweep runs: names may be freed, partly or entirely
+					h.adv(time.Duration(1+r.Intn(3)) * time.Second)
+					h.sweep()
+					h.scrape()
+					continue
+				}
 				name := pick(r, names)
 				if r.Intn(4) == 0 {
 					name = "hist." + name
+				} else if r.Intn(6) == 0 {
+					name = "ttl." + name
 				}
 				if r.Intn(12) == 0 {
 					name = pick(r, []string{"h1", "h2"})
